@@ -7,7 +7,7 @@
 //!
 //! Exit codes: 0 property held on everything explored, 1 violation, 2 harness error.
 
-#![allow(dead_code)]
+
 mod analysis;
 mod derived;
 mod desc;
